@@ -11,6 +11,7 @@ import (
 	"strings"
 	"sync"
 	"sync/atomic"
+	"time"
 
 	"github.com/zitadel/saml/pkg/provider"
 	"github.com/zitadel/saml/pkg/provider/key"
@@ -90,6 +91,8 @@ const (
 	FaultCertNoKey   = "certificate_without_key"
 	FaultEmptyCert   = "empty_certificate"
 	FaultGarbageCert = "garbage_certificate" // unjudged stress kind
+	FaultCtx         = "context_cancelled"   // the request's context was cancelled when the call was made
+	FaultPartial     = "partial_then_error"  // user lookups: part of the record is delivered, then the call fails
 )
 
 // FaultPlan decides whether the occ-th (1-based) call of op inside the request
@@ -150,6 +153,7 @@ type World struct {
 	requests map[string]*AuthReq
 	users    map[string]*User // by user id
 	logins   map[string]*User // by login name
+	pristine map[*User]User   // deep copy taken at registration (Mutated)
 	events   []Event
 	seq      atomic.Int64
 	occ      map[string]int // tag|op -> count
@@ -161,6 +165,12 @@ type World struct {
 
 	Plan    FaultPlan
 	Delay   func(op string) // called inside every storage call (concurrency runs)
+	// Before runs at the start of every storage call, before the fault plan is consulted: it may sleep, wait for
+	// another request to reach a certain point (barriers) or cancel a context. occ is the 1-based occurrence of op
+	// within the tagged request.
+	Before func(ctx context.Context, tag, op string, occ int)
+	// PartialDelay is slept between the partial fill and the error of a FaultPartial user lookup.
+	PartialDelay time.Duration
 	Lenient bool            // GetEntityByID matches ignoring case / surrounding blanks / trailing slash
 	// Tenanted scopes service-provider lookups by the issuer found in the request context (multi-tenant
 	// deployments register the same entity ID independently per virtual host).
@@ -234,7 +244,10 @@ func (w *World) ResetLog() {
 }
 
 func (w *World) fault(ctx context.Context, op string) string {
-	if w.Plan == nil {
+	if w.Plan == nil && w.Before == nil {
+		if ctx.Err() != nil {
+			return FaultCtx
+		}
 		return ""
 	}
 	tag := TagOf(ctx)
@@ -242,6 +255,15 @@ func (w *World) fault(ctx context.Context, op string) string {
 	w.occ[tag+"|"+op]++
 	n := w.occ[tag+"|"+op]
 	w.mu.Unlock()
+	if w.Before != nil {
+		w.Before(ctx, tag, op, n)
+	}
+	if ctx.Err() != nil {
+		return FaultCtx // a real database client returns the context's error
+	}
+	if w.Plan == nil {
+		return ""
+	}
 	return w.Plan(tag, op, n)
 }
 
@@ -266,7 +288,40 @@ func (w *World) AddUser(u *User) {
 	w.mu.Lock()
 	w.users[u.UserID] = u
 	w.logins[u.Username] = u
+	if w.pristine == nil {
+		w.pristine = map[*User]User{}
+	}
+	w.pristine[u] = cloneUser(u)
 	w.mu.Unlock()
+}
+
+func cloneUser(u *User) User {
+	c := *u
+	c.Custom = make([]Custom, len(u.Custom))
+	for i, x := range u.Custom {
+		c.Custom[i] = x
+		c.Custom[i].Values = append([]string(nil), x.Values...)
+	}
+	return c
+}
+
+// Mutated compares every user record with the copy taken when it was registered and describes the first
+// difference ("" = none): the provider must treat what the storage hands out as read-only.
+func (w *World) Mutated() string {
+	w.mu.Lock()
+	defer w.mu.Unlock()
+	for u, was := range w.pristine {
+		if u.UserID != was.UserID || u.Username != was.Username || u.Email != was.Email || u.FullName != was.FullName || u.GivenName != was.GivenName || u.Surname != was.Surname || len(u.Custom) != len(was.Custom) {
+			return fmt.Sprintf("record of user %q changed: %+v, registered as %+v", was.UserID, *u, was)
+		}
+		for i := range u.Custom {
+			a, b := u.Custom[i], was.Custom[i]
+			if a.Name != b.Name || a.Friendly != b.Friendly || a.Format != b.Format || strings.Join(a.Values, "\x00") != strings.Join(b.Values, "\x00") || len(a.Values) != len(b.Values) {
+				return fmt.Sprintf("custom attribute %q of user %q changed: values %q, registered as %q", b.Name, was.UserID, a.Values, b.Values)
+			}
+		}
+	}
+	return ""
 }
 
 // AddLogin registers a user under an explicit login name (attribute queries).
@@ -311,6 +366,8 @@ func (w *World) keyFault(f string, base *key.CertificateAndKey) (*key.Certificat
 	switch f {
 	case FaultError:
 		return nil, ErrInjected
+	case FaultCtx:
+		return nil, context.Canceled
 	case FaultNilRecord:
 		return nil, nil
 	case FaultKeyNoCert:
@@ -437,13 +494,26 @@ func fill(s models.AttributeSetter, u *User) {
 	s.SetUserID(u.UserID)
 	s.SetUsername(u.Username)
 	for _, c := range u.Custom {
-		s.SetCustomAttribute(c.Name, c.Friendly, c.Format, append([]string(nil), c.Values...))
+		// the storage's own slice is handed over, as a real storage may do; Mutated() notices writes to it
+		s.SetCustomAttribute(c.Name, c.Friendly, c.Format, c.Values)
 	}
 }
 
 func (w *World) SetUserinfoWithUserID(ctx context.Context, applicationID string, userinfo models.AttributeSetter, userID string, attributes []int) error {
 	w.delay("SetUserinfoWithUserID")
 	if f := w.fault(ctx, "SetUserinfoWithUserID"); f != "" {
+		if f == FaultPartial {
+			// a lookup that delivers part of the record and then fails (timeout-shaped failure)
+			w.mu.Lock()
+			u := w.users[userID]
+			w.mu.Unlock()
+			if u != nil {
+				userinfo.SetUserID(u.UserID)
+				userinfo.SetUsername(u.Username)
+				userinfo.SetEmail(u.Email)
+			}
+			time.Sleep(w.PartialDelay)
+		}
 		w.log(Event{Tag: TagOf(ctx), Op: "SetUserinfoWithUserID", Args: []string{applicationID, userID}, Res: f, Err: true})
 		return ErrInjected
 	}
@@ -462,6 +532,17 @@ func (w *World) SetUserinfoWithUserID(ctx context.Context, applicationID string,
 func (w *World) SetUserinfoWithLoginName(ctx context.Context, userinfo models.AttributeSetter, loginName string, attributes []int) error {
 	w.delay("SetUserinfoWithLoginName")
 	if f := w.fault(ctx, "SetUserinfoWithLoginName"); f != "" {
+		if f == FaultPartial {
+			w.mu.Lock()
+			u := w.logins[loginName]
+			w.mu.Unlock()
+			if u != nil {
+				userinfo.SetUserID(u.UserID)
+				userinfo.SetUsername(u.Username)
+				userinfo.SetEmail(u.Email)
+			}
+			time.Sleep(w.PartialDelay)
+		}
 		w.log(Event{Tag: TagOf(ctx), Op: "SetUserinfoWithLoginName", Args: []string{loginName}, Res: f, Err: true})
 		return ErrInjected
 	}
